@@ -37,6 +37,7 @@ def run(repo, chk):
     rule_a(repo, chk, p, ex)
     rule_b(repo, chk, p, ex)
     rule_c_d(repo, chk)
+    rule_e(repo, chk, p)
 
 
 def _searches(f):
@@ -396,12 +397,18 @@ def rule_c_d(repo, chk):
     gc = c.cfg()
     rs = [n for n in gc.nodes if n.kind == 'stmt' and pat.fires(n.ast, 'response')]
     need(rs, 'C13.c: the client never fires response')
-    cond = lambda e: e.src.kind == 'test' and e.kind == 'T' and ('is_message_complete()' in src(e.src.ast) or 'is_upgrade()' in src(e.src.ast)  # noqa: E731
-                                                               or pat.fact_matches(pat.compare_fact(e.src.ast, e.kind), 'self._parser._clen', ('==',), '0'))
+    done_ = lambda e: e.src.kind == 'test' and e.kind == 'T' and 'is_message_complete()' in src(e.src.ast) or (  # noqa: E731
+        e.src.kind == 'test' and pat.fact_matches(pat.compare_fact(e.src.ast, e.kind), 'self._parser._clen', ('==',), '0'))
+    upg_ = lambda e: e.src.kind == 'test' and e.kind == 'T' and 'is_upgrade()' in src(e.src.ast)  # noqa: E731
+    sw_ = lambda e: e.src.kind == 'test' and (lambda f_: f_ is not None and 'get_status_code()' in f_[0] and f_[1] == '==' and f_[2] == '101')(pat.compare_fact(e.src.ast, e.kind))  # noqa: E731
     for r in rs:
-        q = pat.guarded_by(gc, r, cond)
+        q = pat.guarded_by(gc, r, lambda e: done_(e) or upg_(e))
         chk.ob('c', c.ref, 'the client fires response only when the message is complete (or upgrade / announced empty body)', q is None, loc(c, r.ast),
                path=pat.path_lines(q) if q else None, discr='response-when-complete')
+        # "Connection: Upgrade" on an ordinary response is an offer: only a 101 response is complete at the end of its headers because of it
+        q = pat.guarded_by(gc, r, lambda e: done_(e) or sw_(e))
+        chk.ob('c', c.ref, 'an upgrade header ends the message at the headers only for a 101 response', q is None, loc(c, r.ast),
+               path=pat.path_lines(q) if q else None, discr='upgrade-only-101')
         newp = [n for n in gc.nodes if n.kind == 'stmt' and 'self' in pat.stores_attr(n.ast, '_parser') and 'HttpParser(' in src(n.ast.value)]
         p_ = Q.escapes(gc, [r], lambda n: n in newp)
         chk.ob('c', c.ref, 'after a response the client starts a fresh parser', p_ is None and bool(newp), loc(c, r.ast), discr='parser-replaced')
@@ -413,3 +420,36 @@ def rule_c_d(repo, chk):
     execs = [cc for _r, cc in pat.method_calls(c.node, 'execute')]
     ok = len(execs) == 1 and [src(a) for a in execs[0].args] == [c.params[1], f'len({c.params[1]})']
     chk.ob('d', c.ref, 'each read is fed to the client parser exactly once', ok, loc(c, c.node), discr='client-fed-once')
+
+
+def rule_e(repo, chk, p):
+    """Decisions taken on the buffered bytes must not depend on what else happens to be in the buffer."""
+    chk.rule('C13.e', 'the header phase decides with prefix tests and searches, never by comparing the whole buffer with a constant (that depends on where '
+                      'the read was cut); every way of completing the headers goes through the set-up of the body framing (length / chunked / until close)')
+    f = need(p.methods.get('_parse_headers'), 'C13.e: HttpParser._parse_headers missing')
+    chk.touch(f)
+    g = f.cfg()
+    dv = f.params[1]
+    whole = [n for n in g.nodes if n.kind == 'test' and isinstance(n.ast, ast.Compare) and len(n.ast.ops) == 1 and isinstance(n.ast.ops[0], (ast.Eq, ast.NotEq))
+             and ((src(n.ast.left) == dv and isinstance(n.ast.comparators[0], ast.Constant)) or (src(n.ast.comparators[0]) == dv and isinstance(n.ast.left, ast.Constant)))]
+    chk.ob('e', f.ref, 'no decision compares the whole buffered data with a constant', not whole, loc(f, whole[0].ast if whole else f.node),
+           detail='; '.join(src(n.ast) for n in whole), discr='no-whole-buffer-equality')
+    # bodiless responses: framing is forced to "no body" for the status codes that never carry one (101 excepted: what follows belongs to the new protocol)
+    forced = [n for n in g.nodes if n.kind == 'stmt' and any(r == 'self' and a == '_clen' and src(v) == '0' for r, a, v in pat.attr_store(n.ast))]
+    codes = set()
+    for n in g.nodes:
+        if n.kind == 'test' and isinstance(n.ast, ast.Compare) and src(n.ast.left) == 'self._status_code' and isinstance(n.ast.ops[0], ast.In) \
+                and isinstance(n.ast.comparators[0], (ast.Tuple, ast.Set, ast.List)):
+            if any(e.dst in forced or (Q.escapes(g, [e.dst], lambda m: m in forced, exits=('exit',)) is None) for e in n.succ if e.kind == 'T'):
+                codes |= {src(x) for x in n.ast.comparators[0].elts}
+    chk.ob('e', f.ref, 'responses with status 204 and 304 (and the interim 1xx ones other than 101) are framed as having no body, whatever their header fields say',
+           bool(forced) and {'204', '304'} <= codes and '101' not in codes, loc(f, forced[0].ast if forced else f.node), detail=f'forced to length 0 for {sorted(codes)}',
+           discr='bodiless-statuses')
+    done = [n for n in g.nodes if n.kind == 'stmt' and any(r == 'self' and a.endswith('__on_headers_complete') and src(v) == 'True' for r, a, v in pat.attr_store(n.ast))]
+    framing = [n for n in g.nodes if n.kind == 'stmt' and any(r == 'self' and a in ('_clen_rest', '_chunked') for r, a, v in pat.attr_store(n.ast))]
+    need(done, 'C13.e: _parse_headers never completes the headers')
+    bad = None
+    for d in done:
+        bad = bad or Q.reachable_without(g, d, avoid_node=lambda n: n in framing)
+    chk.ob('e', f.ref, 'the headers are declared complete only after the body framing was set up', bad is None and bool(framing), loc(f, done[0].ast),
+           path=pat.path_lines(bad) if bad else None, discr='framing-before-complete')
